@@ -15,6 +15,7 @@ import (
 	"strconv"
 	"strings"
 	"sync"
+	"sync/atomic"
 	"time"
 
 	"verif/core"
@@ -85,7 +86,19 @@ func child(args []string) {
 	for i := *from; i < *to; i++ {
 		fmt.Printf("START %s %s %d\n", *prop, *family, i)
 		c := core.NewCtx(*prop, *tier, *family, i, *seed, *race)
-		fam.Run(c)
+		done := core.Go(func() { fam.Run(c) })
+		abandoned := false
+		for !core.AwaitDone(done, 3000) {
+			// a scenario that has already recorded a violation and then cannot wind down (the library is deadlocked
+			// underneath it) is abandoned: its result is kept and the process exits so that the parent goes on
+			if c.Violated() {
+				abandoned = true
+				break
+			}
+		}
+		if abandoned {
+			c.Count("abandoned_after_violation", 1)
+		}
 		c.Finish()
 		b, err := json.Marshal(c.R)
 		if err != nil {
@@ -93,6 +106,11 @@ func child(args []string) {
 		}
 		f.Write(append(b, '\n'))
 		fmt.Printf("END %s %s %d %s\n", *prop, *family, i, c.R.Verdict)
+		if abandoned {
+			f.Close()
+			fmt.Printf("ABANDONED %s %s %d\n", *prop, *family, i)
+			os.Exit(75)
+		}
 	}
 }
 
@@ -178,7 +196,14 @@ func parent(args []string) {
 	)
 	sem := make(chan struct{}, *par)
 	var wg sync.WaitGroup
+	skipped := 0
 	for i, b := range batches {
+		// enough is enough: once a dozen scenarios have violated, the remaining batches add nothing (and a library
+		// that deadlocks makes every further scenario wait for its bounds)
+		if violationsSoFar.Load() >= 12 {
+			skipped++
+			continue
+		}
 		wg.Add(1)
 		sem <- struct{}{}
 		go func(i int, b batch) {
@@ -192,6 +217,9 @@ func parent(args []string) {
 		}(i, b)
 	}
 	wg.Wait()
+	if skipped > 0 {
+		fmt.Fprintf(os.Stderr, "  (%d of %d batches skipped after %d violating scenarios)\n", skipped, len(batches), violationsSoFar.Load())
+	}
 
 	sort.Slice(results, func(i, j int) bool {
 		if results[i].Family != results[j].Family {
@@ -417,6 +445,8 @@ func firstLine(s string) string {
 	return s
 }
 
+var violationsSoFar atomic.Int64
+
 var startRe = regexp.MustCompile(`(?m)^START (\S+) (\S+) (\d+)$`)
 
 // runBatch runs one child (re-spawning after a crash for the remaining scenarios).
@@ -455,6 +485,11 @@ func runBatch(self string, p *core.Property, tier string, seed uint64, b batch, 
 		lf.Close()
 		rs := readResults(out)
 		results = append(results, rs...)
+		for _, r := range rs {
+			if r.Verdict == core.Violated {
+				violationsSoFar.Add(1)
+			}
+		}
 		done := from + len(rs)
 		code := -1
 		if ee, ok := runErr.(*exec.ExitError); ok {
@@ -470,6 +505,13 @@ func runBatch(self string, p *core.Property, tier string, seed uint64, b batch, 
 			os.Remove(logp)
 			os.Remove(out)
 			return
+		}
+		if code == 75 { // the child abandoned a scenario that could not wind down after a violation: go on after it
+			from = done
+			if violationsSoFar.Load() >= 12 {
+				return
+			}
+			continue
 		}
 		// crash or timeout
 		logb, _ := os.ReadFile(logp)
@@ -497,7 +539,11 @@ func runBatch(self string, p *core.Property, tier string, seed uint64, b batch, 
 			r := &core.Result{Prop: p.ID, Family: b.fam, Index: idx, Seed: seed, GOMAXPROCS: b.gmp, Verdict: core.Violated,
 				Key: "crash:" + fn, Reason: "child process died inside the library: " + head, Dump: tail(logs, 30000)}
 			results = append(results, r)
+			violationsSoFar.Add(1)
 			from = idx + 1
+			if violationsSoFar.Load() >= 12 {
+				return
+			}
 			continue
 		}
 		errs = append(errs, fmt.Sprintf("batch %s scenario %d crashed outside the library (exit %d): %s (log %s)", tag, idx, code, head, logp))
